@@ -5,6 +5,7 @@ import (
 	"strings"
 
 	"ariga.io/atlas/sql/schema"
+	"verifharness/internal/hx"
 )
 
 // c04Repoint: change sets in which a KEPT table re-points a foreign key (ModifyForeignKey: same symbol, another
@@ -12,7 +13,7 @@ import (
 // are referred to by it, in a named schema, in EVERY input order, for MySQL / PostgreSQL / TiDB. The planned
 // statements are replayed on the reference catalogue: no statement may refer to a table that does not exist at
 // that point, and afterwards every wanted table and key exists.
-func c04Repoint(e *Env) {
+func c04Repoint(e *Env, pool *hx.Pool) {
 	type shape struct {
 		name   string
 		schema string
@@ -79,6 +80,46 @@ func c04Repoint(e *Env) {
 				if err != nil {
 					e.Res.Violate("failing-input", "planner-fails", id+": "+err.Error(), "Props.C04", rep)
 					continue
+				}
+				if dialect == "tidb" {
+					// the Lean model of the TiDB ordering step (Atlas.Tidb.order; Props.C04.tidb_repoint_before_created_parent)
+					// on the kinds of this change set: does the re-pointing ALTER precede CREATE TABLE parties?
+					num := map[string]int{"parties": 1, "accounts": 2, "zeta": 3}
+					var kinds []map[string]any
+					for _, ch := range ordered {
+						switch ch := ch.(type) {
+						case *schema.ModifyTable:
+							kinds = append(kinds, map[string]any{"k": "modify-fk", "t": 1})
+						case *schema.AddTable:
+							kinds = append(kinds, map[string]any{"k": "add-table", "t": num[ch.T.Name]})
+						}
+					}
+					var mans struct {
+						Order []string `json:"order"`
+					}
+					if err := pool.AskInto(map[string]any{"op": "tidb.order", "changes": kinds}, &mans); err == nil {
+						mi, mc, ii, ic := -1, -1, -1, -1
+						for k, o := range mans.Order {
+							if o == "modify-fk 1" {
+								mi = k
+							}
+							if o == "add-table 1" {
+								mc = k
+							}
+						}
+						for k, st := range stmts {
+							if ii < 0 && strings.HasPrefix(st, "ALTER TABLE") && strings.Contains(st, "fk_owner") && strings.Contains(st, "parties") {
+								ii = k
+							}
+							if strings.HasPrefix(st, "CREATE TABLE") && strings.Contains(st, "`parties`") {
+								ic = k
+							}
+						}
+						if mi >= 0 && mc >= 0 && ii >= 0 && ic >= 0 && (mi < mc) != (ii < ic) {
+							e.Res.Disagree()
+							e.Res.Violate("no-failing-input-found", "corr-tidb-order-mismatch", fmt.Sprintf("%s: the model orders %v, the planner's statements are %s", id, mans.Order, trunc(strings.Join(stmts, "; "), 400)), "correspondence Atlas.Tidb.order", rep)
+						}
+					}
 				}
 				cat := newC04Cat()
 				cat.tables["users"], cat.tables["orders"] = true, true
